@@ -55,6 +55,7 @@ func (x *Exec) registerGhosts() {
 	x.Ghosts["constant"] = ghostConstant
 	x.Ghosts["up"] = ghostUp
 	x.Ghosts["frame"] = ghostFrame
+	x.Ghosts["callfunc"] = ghostCallFunc
 }
 
 func (x *Exec) needFam(name string) *famEnv {
@@ -371,4 +372,26 @@ func ghostFrame(f *Frame, st, old *State, idx []spec.Expr, args []spec.Expr) TV 
 	upn := par.asInt64(par.selectField(v, "Upn", fe.create))
 	envT := fe.envType()
 	return TV{x.frameOf(fe, st, upn, depthT), types.NewPointer(envT)}
+}
+
+// callfunc(v): v is a reflect.Value handle (an element of Env.Vals) holding a function without
+// parameters; the function it currently holds is called, and the results are those of the closure
+// under contract (callNretM closures return what the callee returns).
+func ghostCallFunc(f *Frame, st, old *State, idx []spec.Expr, args []spec.Expr) TV {
+	x := f.x
+	fe := x.needFam("callfunc")
+	if len(args) != 1 {
+		specErr("callfunc(v)")
+	}
+	v := f.eval(args[0], st, old)
+	iface := x.rvInterface(st, rvOf(v.V))
+	callee := x.scalar(iface.Fields[1], nil)
+	res := f.fn.Signature.Results()
+	sig := types.NewSignatureType(nil, nil, nil, types.NewTuple(), res, false)
+	fe.sawCall = true
+	r := x.opaqueCall(nil, st, nil, callee, nil, sig)
+	if res.Len() == 1 {
+		return TV{r, res.At(0).Type()}
+	}
+	return TV{r, res}
 }
